@@ -776,64 +776,8 @@ Proof.
   - intro s. unfold lex. apply lex_all_equiv. exact Heq.
 Qed.
 
-(* ================================================================================================ *)
-(* 5. the generated rule list                                                                       *)
-(* ================================================================================================ *)
 
-Lemma gen_catch_all : catch_all Gen_Lexer.rules.
-Proof.
-  intro c. exists 38, (Alt Any (Chr 10)), (Some NV_ID). split; [reflexivity |].
-  destruct (N.eqb_spec c 10) as [E | E].
-  - subst c. apply M_AltR. constructor.
-  - apply M_AltL. unfold Any. constructor. unfold cmatch, in_rng. cbn [existsb fst snd].
-    destruct (N.leb_spec 10 c) as [H1 | H1]; destruct (N.leb_spec c 10) as [H2 | H2];
-      cbn [andb orb xorb negb]; try reflexivity.
-    exfalso. apply E. lia.
-Qed.
-
-Lemma C14_rules_proof : C14_rules_stmt.
-Proof.
-  split; [vm_compute; reflexivity |].
-  split; [exact gen_catch_all |].
-  split; [vm_compute; reflexivity | reflexivity].
-Qed.
-
-Lemma C14_spellings_proof : C14_spellings_stmt.
-Proof. split; vm_compute; reflexivity. Qed.
-
-Definition unknown_byte_check (c : N) : bool :=
-  negb (negb (in_rng c SpecLex.alnum) && negb (existsb (N.eqb c) [32; 9; 10; 40; 41; 44; 59; 58; 61]%N))
-  || match lex Gen_Lexer.rules [c] with
-     | [(NV_ID, [c'], 1%Z)] => N.eqb c c'
-     | _ => false
-     end.
-
-Lemma unknown_byte_sweep : forallb unknown_byte_check (map N.of_nat (seq 0 256)) = true.
-Proof. vm_compute. reflexivity. Qed.
-
-Lemma C14_unknown_byte_proof : C14_unknown_byte_stmt.
-Proof.
-  intros c known Hc Hal Hkn. subst known.
-  pose proof unknown_byte_sweep as Hs. rewrite forallb_forall in Hs.
-  assert (Hin : In c (map N.of_nat (seq 0 256))).
-  { apply in_map_iff. exists (N.to_nat c). split; [apply N2Nat.id |]. apply in_seq. lia. }
-  apply Hs in Hin. unfold unknown_byte_check in Hin.
-  rewrite Hal, Hkn in Hin. cbn [negb andb orb] in Hin.
-  destruct (lex Gen_Lexer.rules [c]) as [| [[k text] line] tl]; [discriminate |].
-  destruct k; try discriminate.
-  destruct text as [| c' text']; [discriminate |].
-  destruct text' as [| c'' text'']; [| discriminate].
-  destruct line as [| p | p]; try discriminate.
-  destruct p; try discriminate.
-  destruct tl; [| discriminate].
-  apply N.eqb_eq in Hin. subst c'. reflexivity.
-Qed.
-
-(* ================================================================================================ *)
 Print Assumptions C14_matcher_proof.
 Print Assumptions C14_maxmunch_proof.
 Print Assumptions C14_lex_proof.
 Print Assumptions C14_rules_agree_meaning_proof.
-Print Assumptions C14_rules_proof.
-Print Assumptions C14_spellings_proof.
-Print Assumptions C14_unknown_byte_proof.
